@@ -5,7 +5,7 @@ wt=$1; m=$2; d=$wt/MUTANTS/$m
 cd $wt || exit 9
 git checkout -q -- . ; git clean -q -fd -e MUTANTS >/dev/null 2>&1
 demo=$(ls $d/demo*.go 2>/dev/null | head -1)
-pkg=$(grep -m1 '^package ' $demo | awk '{print $2}')
+pkg=$(grep -m1 '^package ' $demo | awk '{print $2}'); pkg=${pkg%_test}
 case $pkg in
   verify) dir=verify;; validate) dir=validate;; abi) dir=abi;; trust) dir=verify/trust;; rtmr) dir=rtmr;; client) dir=client;; pcs) dir=pcs;; main) dir=tools/check;; *) dir=$pkg;;
 esac
@@ -15,9 +15,11 @@ go build ./... || { echo "BUILD-FAILED"; git checkout -q -- .; exit 1; }
 t=$(go test -vet=off -count=1 ./... 2>&1 | grep -v "no test files" | grep -v "^ok" | head -5)
 [ -n "$t" ] && { echo "SUITE-FAILS-WITH-PATCH: $t"; git checkout -q -- .; exit 1; }
 cp $demo $dir/zz_mutdemo_test.go
+RACE=""
 r1=$(go test -vet=off -count=1 -run "^($runre)\$" ./$dir/ 2>&1 | tail -1)
+case "$r1" in ok*) RACE="-race"; r1=$(go test -race -vet=off -count=1 -run "^($runre)\$" ./$dir/ 2>&1 | tail -1);; esac
 git checkout -q -- .
-r2=$(go test -vet=off -count=1 -run "^($runre)\$" ./$dir/ 2>&1 | tail -1)
+r2=$(go test $RACE -vet=off -count=1 -run "^($runre)\$" ./$dir/ 2>&1 | tail -1)
 rm -f $dir/zz_mutdemo_test.go
 echo "with-patch: $r1 | clean: $r2"
 case "$r1" in FAIL*|*FAIL*) ;; *) echo "DEMO-DOES-NOT-FAIL"; exit 1;; esac
